@@ -25,7 +25,8 @@ RULE = ('Direct calls of the long-only sizer on a real broker: 1-6 assets from a
         'or a rejected invalid input.'
         " Round-4/5 reach: the broker's fee model replaced, cash withdrawn and the sizer's cash_buffer_percentage re-set between calls on one sizer; QuantTradingSystem-built sizers given both sizing keywords; exact clause (quantity == reference sizing in exact rationals unless a quotient is within 1e-12 of a whole number) incl. allocations that are exact multiples of the price; csv part: files in any row order with missing cells, a first bar without an Open, a source quoting a spread, a first-listed source whose history starts later."
         " Round-10 reach: `broker_other_feed` (the broker's own handler quotes x1.75; the sizer and the trading system are given another) in a third of the random cases; csv part: the first-listed, later-starting source may raise instead of answering NaN before its coverage, and the handler is asked 400, 30, 3 and 1 days earlier."
-        " Round-11 reach (csv part): `scan_dir` - the source lists the directory itself, which also holds a gzip archive copy with other prices, a backup and a text file; sizing instants a fraction of a second either side of the whole second.")
+        " Round-11 reach (csv part): `scan_dir` - the source lists the directory itself, which also holds a gzip archive copy with other prices, a backup and a text file; sizing instants a fraction of a second either side of the whole second."
+        " Round-12 reach: `via_session` (a BacktestTradingSession accepts exactly the buffers in [0, 1]); csv part: `asked_later_first` (the handler priced later instants before it is asked at t).")
 ASSUMPTIONS = [
     'fee rates with commission + tax <= 1 (a fee above 100% has no meaningful budget)',
     'weight sums either <= 1e-9 (left unscaled by the code, only upper bounds asserted) or >= 5e-5',
@@ -68,6 +69,26 @@ def run_case(case):
     if inv == 'nan_price':
         dh.q.pop(case['nan_asset'], None)
     buf = case['buffer']
+    if case.get('via_session') and buf != 'default' and inv in (None, 'buffer_low', 'buffer_high'):
+        # the way a back-test passes it: BacktestTradingSession(..., long_only=True, cash_buffer_percentage=b) accepts
+        # exactly the buffers in [0, 1] (both ends included) and hands them to the sizer unchanged
+        uni_ = q.StaticUniverse(sorted(weights))
+        s0_ = pd.Timestamp('2021-03-01 14:30:00', tz='UTC')
+        try:
+            bt_ = q.BacktestTradingSession(s0_, s0_ + pd.Timedelta(days=9), uni_, q.FixedSignalsAlphaModel(dict.fromkeys(weights, 1.0)),
+                                           rebalance='daily', long_only=True, cash_buffer_percentage=buf,
+                                           data_handler=q.BacktestDataHandler(uni_, data_sources=[]))
+        except ValueError:
+            if inv is None:
+                raise Violation('a back-test session refused the cash buffer %r' % buf)
+            bt_ = None
+        if bt_ is not None:
+            if inv is not None:
+                raise Violation('cash buffer %r was accepted by BacktestTradingSession' % buf)
+            sz_ = bt_.qts.portfolio_construction_model.order_sizer
+            if not isinstance(sz_, q.DollarWeightedCashBufferedOrderSizer) or sz_.cash_buffer_percentage != buf:
+                raise Violation('a long-only session with cash buffer %r built %s with buffer %r' % (
+                    buf, type(sz_).__name__, getattr(sz_, 'cash_buffer_percentage', None)))
     if inv in ('buffer_low', 'buffer_high'):
         try:
             if case.get('via_qts'):
@@ -277,6 +298,7 @@ def cases(draw):
             case['more_weights'].append({a: _weight(draw) for a in sub})
     case['via_qts'] = draw(st.sampled_from([False, False, True]))
     case['broker_other_feed'] = draw(st.sampled_from([False, False, True]))
+    case['via_session'] = draw(st.sampled_from([False, False, False, True]))
     case['both_kwargs'] = draw(st.booleans())      # a shared configuration carrying both sizing keywords
     inv = draw(st.sampled_from([None] * 12 + ['neg_weight', 'buffer_low', 'buffer_high', 'nan_price']))
     if inv == 'neg_weight':
@@ -414,6 +436,13 @@ def run_csv(case, long_only=True):
                 for back in ((400, 30, 3, 1) if case.get('late_source_raises') else (3, 1)):
                     dh.get_asset_latest_bid_price(t - pd.Timedelta(days=back), 'EQ:' + s)
                     dh.get_asset_latest_mid_price(t - pd.Timedelta(days=back), 'EQ:' + s)
+        if case.get('asked_later_first'):
+            # the (long-lived) handler has already priced every asset at later instants - a run over a later period, a
+            # report - before it is asked at t; an asset without a bar at or before t is still unpriced at t
+            for s in syms:
+                for fwd in (45, 6):
+                    dh.get_asset_latest_bid_price(t + pd.Timedelta(days=fwd), 'EQ:' + s)
+                    dh.get_asset_latest_ask_price(t + pd.Timedelta(days=fwd), 'EQ:' + s)
         unpriced = [a for a in weights if math.isnan(price[a])]
         # the sizing instant may be written in another time zone (the same instant)
         t_call = t.tz_convert(case['tz']) if case.get('tz') else t
@@ -473,6 +502,8 @@ def run_csv(case, long_only=True):
         cls.append('files_' + order)
     if case.get('scan_dir'):
         cls.append('source_lists_a_directory_holding_other_files_too')
+    if case.get('asked_later_first'):
+        cls.append('handler_priced_later_instants_first')
     if case.get('t_us'):
         cls.append('asked_a_fraction_of_a_second_off_the_whole_second')
     if case.get('late_source_first'):
@@ -538,6 +569,7 @@ def csv_cases(draw, long_only=True):
     w = {s: (draw(st.sampled_from([0.0, 0.5, 1.0, 0.25])) * (1 if long_only or draw(st.booleans()) else -1)) for s in names}
     return {'file_order': draw(st.sampled_from(['sorted', 'reversed', 'shuffled'])),
             'scan_dir': draw(st.sampled_from([False, False, True])),
+            'asked_later_first': draw(st.sampled_from([False, False, True])),
             't_us': draw(st.sampled_from([0, 0, -400000, 600000, -1, 1])),
             'spread': draw(st.sampled_from([0.0, 0.0, 0.02, 0.3])),
             'late_source_first': draw(st.sampled_from([False, False, True])),
